@@ -11,7 +11,7 @@ from ..common import Run, main_guard
 
 common.bootstrap()
 
-from ..vclock import CLOCK
+from ..vclock import CLOCK, StepBudgetExceeded
 from ..txn import (Cfg, run_scenario, check_c04, outcomes_of, expected_outcome, STATE_SEEN)
 from ..txn_workload import configurations, single_faults, fault_pairs, random_plans, describe_plan
 from ..fnet import Plan
@@ -68,6 +68,67 @@ def classify(key, detail, res):
     return key
 
 
+KNOWN_PARKED = "packets-of-a-finished-request-stay-parked-for-a-network-without-router-and-are-sent-when-one-appears"
+
+
+def unreachable_network(run, rng, path, retries, announce_after):
+    """a request for a station on another network while no router to that network has been heard of (its announcement is lost
+    or late - within "whatever the network loses"): the requester asks who the router is, nobody answers, the request ends with
+    one abort in bounded time - and nothing of it stays behind, in particular nothing that goes out when a router does turn up"""
+    from ..stacks import Stack, DirectApp, IOApp, transaction_census, heap_transaction_timers
+    from ..fnet import FaultNet
+    from bacpypes.pdu import Address, RemoteStation, LocalBroadcast
+    from bacpypes.vlan import Node
+    from .. import wire as W
+    CLOCK.reset()
+    events = []
+    lan = FaultNet("lan", Plan())
+    client = Stack(lan, 1, events, "client", IOApp if path == "iocb" else DirectApp, numberOfApduRetries=retries, apduTimeout=3000, apduSegmentTimeout=2000)
+    Node(Address(9), lan)                   # the station that will turn out to be the router
+    CLOCK.settle()
+    wit = {"config_class": "request-to-a-network-without-known-router", "path": path, "retries": retries,
+           "router_announced_after": announce_after}
+    token = 8801
+    t0 = CLOCK.now
+    try:
+        client.send(client.cpt_request(RemoteStation(2, 5), token, 5), token)
+        CLOCK.drive(duration=(retries + 1) * 3.0 + 5.0, max_steps=200000)
+    except StepBudgetExceeded as err:
+        run.violation("transaction-never-quiesces", dict(wit, error=str(err)))
+        return
+    except Exception as err:
+        run.violation("request-to-unreachable-network-raised/" + type(err).__name__, dict(wit, error=repr(err)[:100]))
+        return
+    run.count("scenarios")
+    run.count("requests_to_a_network_without_router")
+    outs = [e for e in events if e["who"] == "client" and e["ev"] == ("iocb-callback" if path == "iocb" else "confirmation")]
+    run.count("outcomes_observed", len(outs))
+    if len(outs) != 1:
+        run.violation("no-outcome-delivered" if not outs else "outcome-delivered-more-than-once", dict(wit, outcomes=[(round(o["t"] - t0, 2), o.get("outcome")) for o in outs]))
+        return
+    if outs[0]["t"] - t0 > (retries + 1) * 3.0 + 1e-6:
+        run.violation("outcome-later-than-bound", dict(wit, after=outs[0]["t"] - t0, bound=(retries + 1) * 3.0))
+        return
+    if transaction_census() or heap_transaction_timers():
+        run.violation("transaction-left-after-outcome/unreachable-network", dict(wit))
+        return
+    parked = {net: len(v) for net, v in client.nsap.pending_nets.items()}
+    # a router announces the network (late)
+    CLOCK.drive(duration=announce_after, max_steps=200000)
+    n0 = len(lan.frames)
+    lan.inject(Address(9), LocalBroadcast(), W.npci_build({"net_message": 0x01, "payload": b"\x00\x02"}))
+    CLOCK.drive(duration=20.0, max_steps=200000)
+    late = [rec for rec in lan.frames[n0:] if str(rec["src"]) == "1" and bytes([token >> 8, token & 0xFF]) in rec["octets"] or
+            (str(rec["src"]) == "1" and b"\x00\x02\x01\x05" in rec["octets"][:8])]
+    if parked or late:
+        run.violation(KNOWN_PARKED, dict(wit, parked_after_the_outcome=parked, request_frames_sent_after_the_router_appeared=len(late),
+                                         outcome=(round(outs[0]["t"] - t0, 2), outs[0].get("outcome"))))
+        return
+    outs2 = [e for e in events if e["who"] == "client" and e["ev"] == ("iocb-callback" if path == "iocb" else "confirmation")]
+    if len(outs2) != 1:
+        run.violation("outcome-delivered-more-than-once", dict(wit, outcomes=len(outs2)))
+
+
 def main():
     run = Run("C04", "fault_enumeration", RULE, assumptions=[
         "virtual LAN and virtual clock; real sockets and wall-clock timers are not exercised",
@@ -81,6 +142,12 @@ def main():
         return run.finish(require=("scenarios", "outcomes_observed", "single_fault_cases"))
     rng = run.rng("c04")
     idx = 0
+    if run.shard[0] == 0:
+        for path in ("direct", "iocb"):
+            for retries in (0, 1, 3):
+                for announce_after in (0.5, 30.0):
+                    run.case(("unreachable", path, retries, announce_after), sample=None)
+                    unreachable_network(run, rng, path, retries, announce_after)
     for label, cfg in configurations(rng, run.tier):
         idx += 1
         if not run.mine(idx):
